@@ -7,6 +7,7 @@ import (
 	"io/ioutil"
 	"math/rand"
 	"os"
+	"sync/atomic"
 
 	"github.com/biogo/biogo/align/pals"
 	"github.com/biogo/biogo/align/pals/filter"
@@ -186,9 +187,14 @@ func Case(w *vt.W, rng *rand.Rand, id, maxLen int) {
 		// a short repeat (a fifth longer than the minimum) whose only differences are two substitutions near
 		// its ends, so that the k-mers it shares with the target span less than the minimum hit length
 		if ln := minLen * 6 / 5; rng.Intn(2) == 0 && int(float64(ln)*(1-minID)/3) >= 2 {
+			d := 7 + rng.Intn(4)
+			if rng.Intn(2) == 0 {
+				// tighter still: six letters longer than the minimum, differences four letters from the ends, so that
+				// the shared k-mers span less than the minimum whatever the word length
+				ln, d = minLen+6, 4
+			}
 			ta := rng.Intn(len(T) - ln)
 			cp := append([]byte{}, T[ta:ta+ln]...)
-			d := 7 + rng.Intn(4)
 			for _, pos := range []int{d, ln - 1 - d} {
 				cp[pos] = acgt[(indexOf(cp[pos])+1+rng.Intn(3))%4]
 			}
@@ -246,7 +252,11 @@ func Case(w *vt.W, rng *rand.Rand, id, maxLen int) {
 }
 
 // runCase runs Optimise, BuildIndex and both Align passes on one comparison and returns its record.
+// Current: what the case being run looks like (for the memory guard's report).
+var Current atomic.Value
+
 func runCase(id int, T, Q []byte, self bool, minLen int, minID float64, plants []Plant) vt.Ev {
+	Current.Store(fmt.Sprintf("case %d: minlen=%d minid=%.2f self=%v |T|=%d |Q|=%d", id, minLen, minID, self, len(T), len(Q)))
 	ev := vt.Ev{"id": id, "minlen": minLen, "minid_ppm": int(minID*1e6 + 0.5), "self": self, "tlen": len(T), "qlen": len(Q),
 		"plants": plantEvs(plants), "err": "", "panic": "", "passes": []vt.Ev{}}
 	if os.Getenv("VERIF_DUMP_CASE") == fmt.Sprint(id) {
@@ -314,7 +324,6 @@ func runCase(id int, T, Q []byte, self bool, minLen int, minID float64, plants [
 	}()
 	return ev
 }
-
 
 // SelfSweep: self comparisons of random sequences that carry a short tandem repeat (so that the filter has
 // hits a few diagonals above the main one) over a run of consecutive lengths (so that every position of the
